@@ -1,11 +1,11 @@
 package main
 
 import (
+	"fmt"
+	"os"
 	"runtime/pprof"
 	"strconv"
 	"time"
-	"fmt"
-	"os"
 )
 
 func init() {
